@@ -180,9 +180,9 @@ func runProperty(w *World, prop, tier, vdir string, start time.Time, writeBaseli
 	if prop == "C13" {
 		rs = append(rs, portabilityResult(w))
 	}
-	quickT, fullT := 6*time.Second, 25*time.Second
+	quickT, fullT := 6*time.Second, 60*time.Second
 	if tier == "thorough" {
-		quickT, fullT = 5*time.Second, 60*time.Second
+		quickT, fullT = 5*time.Second, 90*time.Second
 	}
 	// baseline and known findings
 	var bl map[string]*baselineProp
@@ -246,7 +246,7 @@ func runProperty(w *World, prop, tier, vdir string, start time.Time, writeBaseli
 			}
 			nb.Functions[r.Name] = "ok"
 			for _, o := range r.Obls {
-				if o.Status == "unsat" && o.Secs < 8 {
+				if o.Status == "unsat" && o.Secs < 20 {
 					nb.Obligations[o.Name] = "discharged"
 				} else if o.Status == "sat" {
 					nb.Obligations[o.Name] = "fails"
@@ -469,7 +469,19 @@ func runProperty(w *World, prop, tier, vdir string, start time.Time, writeBaseli
 		"calls listed under abstracted_calls are havocked (results unconstrained, reachable memory unconstrained)",
 		"obligations inside a callee that is itself under contract are checked where that callee is verified",
 	}
+	// loop invariants / preconditions that are used (assumed after the loop
+	// or at the call) although their own proof obligation is not discharged
+	assumedInv := []string{}
+	for _, u := range undecided {
+		if strings.Contains(u, ":inv-entry(") || strings.Contains(u, ":inv-preserved(") || strings.Contains(u, ":pre(") || strings.Contains(u, ":decreases(") {
+			assumedInv = append(assumedInv, u)
+		}
+	}
+	if len(assumedInv) > 0 {
+		assumptions = append(assumptions, fmt.Sprintf("%d loop-invariant / precondition obligations are not discharged on the reference tree (listed under coverage.assumed_invariants): the obligations of the same function that come after them are proved relative to these invariants", len(assumedInv)))
+	}
 	cov := map[string]interface{}{
+		"assumed_invariants":       assumedInv,
 		"obligations":              total,
 		"discharged":               discharged,
 		"checker_cmd":              fmt.Sprintf("bin/govc check -property %s -tier %s (VC generation over go/ssa of /repo with -tags verif; z3-new 5.1.0, cvc5 1.0.3, z3 4.8.12 raced per obligation)", prop, tier),
